@@ -62,9 +62,37 @@ class _VSelector:
         return []
 
 
+class SeqTask(asyncio.Task):
+    """a Task whose hash is its creation number, not its address: the iteration order of every set of tasks
+    (`done`, `pending | extra_workers`, the tasks cancelled at teardown) is then a function of the run and of the
+    chosen salt alone - reproducible, and variable on purpose (the order of a set is a scheduling choice the code
+    under test must not depend on).  salt 0: creation order for small sets; salt 1: the reverse; salt >= 2: scattered"""
+
+    _salt = 0
+    _vseq = 0
+
+    def __hash__(self):
+        n = self._vseq
+        salt = SeqTask._salt
+        if salt == 0:
+            return n
+        if salt == 1:
+            return (1 << 20) - n
+        return (n * 2654435761 + salt * 40503) & 0xFFFFF
+
+
 class VLoop(asyncio.SelectorEventLoop):
     def __init__(self):
         super().__init__()
+        self._task_seq = 0
+
+        def factory(loop, coro, **kw):
+            t = SeqTask(coro, loop=loop, **kw)
+            loop._task_seq += 1
+            t._vseq = loop._task_seq
+            return t
+
+        self.set_task_factory(factory)
         self._vtime = 0.0
         self._settle_waiters = []
         self._executor_jobs = 0
@@ -149,6 +177,7 @@ def run(coro_fn, *args, **kw):
     VERIF_WALL_LIMIT seconds (default 180) of real time raises WallClockExceeded"""
     import os
 
+    SeqTask._salt = int(kw.pop("task_salt", os.environ.get("VERIF_TASK_SALT", "0")))
     loop = VLoop()
     limit = float(os.environ.get("VERIF_WALL_LIMIT", "180"))
     _WATCHDOG["fired"] = 0
@@ -425,6 +454,9 @@ class MemTransport(asyncio.Transport):
 # ------------------------------------------------------------------------------------------------
 # listeners, registry
 # ------------------------------------------------------------------------------------------------
+START_SERVER_YIELDS = 4
+
+
 class MemServer:
     def __init__(self, net, cb, host, port, family):
         self.net = net
@@ -539,6 +571,11 @@ class Net:
     # -- asyncio.start_server replacement
     async def start_server(self, client_connected_cb, host=None, port=None, *, limit=2**16, ssl=None, **kw):
         self.start_server_calls.append((host, port))
+        # the real asyncio.start_server never returns without suspending: create_server gathers its address
+        # look-ups (a child task: three loop iterations until the gather wakes the caller) and skips one more
+        # iteration at the end - whoever awaits it lets the other tasks of the loop run meanwhile
+        for _ in range(START_SERVER_YIELDS):
+            await asyncio.sleep(0)
         if port in (None, 0):
             port = self.next_port
             self.next_port += 1
